@@ -48,6 +48,8 @@ var props = map[string]*prop{
 			{name: "table-int32", run: "^TestC01_Table$", arch: "386", thoroughOnly: true},
 			{name: "random-int32", run: "^TestC01_Random$", arch: "386", shards: [2]int{2, 4}, checks: [2]int{5000, 100000}},
 			{name: "after-validation", run: "^TestC01_AfterValidation$"},
+			{name: "history", run: "^TestC01_History$", shards: [2]int{2, 8}, checks: [2]int{3000, 60000}},
+			{name: "cold", run: "^TestC01_Cold$", shards: [2]int{4, 8}},
 			{name: "concurrent", run: "^TestC01_Concurrent$", weight: 8},
 			{name: "table", run: "^TestC01_Table$"},
 			{name: "random", run: "^TestC01_Random$", shards: [2]int{2, 16}, checks: [2]int{15000, 400000}},
@@ -108,6 +110,7 @@ var props = map[string]*prop{
 			{name: "grid", run: "^TestC14_Grid$", shards: [2]int{4, 16}},
 			{name: "random", run: "^TestC14_Random$", shards: [2]int{4, 16}, checks: [2]int{6000, 200000}},
 			{name: "fuzz-seeds", run: "^FuzzC14$"},
+			{name: "concurrent", run: "^TestC14_Concurrent$", shards: [2]int{2, 8}, checks: [2]int{25, 400}, weight: 4},
 			{name: "fuzz", fuzz: "FuzzC14", thoroughOnly: true, fuzzTime: [2]time.Duration{0, 120 * time.Second}, weight: 16},
 		},
 		assumptions: append([]string{"a hang is decided up to a 120 s bound per call on inputs <= 4 MiB (expected: milliseconds)"}, baseAssumptions...),
@@ -167,6 +170,9 @@ var props = map[string]*prop{
 			{name: "concurrent", run: "^TestC05_Concurrent$", weight: 8},
 			{name: "table", run: "^TestC05_Table$", shards: [2]int{2, 16}},
 			{name: "flips", run: "^TestC05_Flips$", shards: [2]int{4, 16}, checks: [2]int{100, 5000}},
+			{name: "history", run: "^TestC05_History$", shards: [2]int{2, 8}, checks: [2]int{1500, 30000}},
+			{name: "cold", run: "^TestC05_Cold$", shards: [2]int{4, 8}},
+			{name: "via-source", run: "^TestC05_ViaSource$", shards: [2]int{2, 8}, checks: [2]int{3000, 60000}},
 		},
 		assumptions: baseAssumptions,
 	},
@@ -189,6 +195,7 @@ var props = map[string]*prop{
 			{name: "concurrent", run: "^TestC07_Concurrent$", weight: 8},
 			{name: "children", run: "^TestC07_Children$", shards: [2]int{8, 16}, checks: [2]int{30, 1500}},
 			{name: "inprocess", run: "^TestC07_InProcess$"},
+			{name: "faulty", run: "^TestC07_Faulty$"},
 		},
 		assumptions: append([]string{"crypto/rand.Reader is the operating-system CSPRNG; randomness quality is not established by sampling: the claim rests on interface identity plus byte-exact use of the source"}, baseAssumptions...),
 	},
@@ -196,6 +203,7 @@ var props = map[string]*prop{
 		level: "exploration", exhaustive: true,
 		jobs: []job{
 			regress,
+			{name: "cold-concurrent", run: "^TestC08_ColdConcurrent$", shards: [2]int{2, 4}, weight: 4},
 			{name: "list-int32", run: "^TestC08_List$", arch: "386"},
 			{name: "back-int32", run: "^TestC08_Back$", arch: "386", shards: [2]int{4, 8}},
 			{name: "list", run: "^TestC08_List$", shards: [2]int{1, 10}},
